@@ -228,6 +228,10 @@ def _internal_connection_error(msg):
     subsystem (a group built by the library, not a connection the harness made between top-level subsystems); else None."""
     import re
 
+    # an input of a library group's documented interface that the harness connects to does not exist (any more)
+    gone = re.findall(r"Attempted to connect from '[^']+' to '([^']+)', but '\1' doesn't exist", msg)
+    if gone and all("." in g for g in gone):
+        return "interface:" + "+".join(sorted({g for g in gone}))[:120]
     pairs = re.findall(r"Can't connect '([^']+)' to '([^']+)'", msg)
     if not pairs:
         return None
